@@ -32,6 +32,7 @@ type Check struct {
 	Quick        tierCfg
 	Thorough     tierCfg
 	MaxWorkers   int
+	Arms         []Arm // additional harnesses that serve the same property; each gets some of the check's workers
 	RunTimeoutS  float64
 	Params       map[string]string
 	Rule         string
@@ -42,6 +43,13 @@ type Check struct {
 	LevelNote    string
 	Technique    string
 	DesignRef    string
+}
+
+// Arm is an additional harness run inside a check (same property id, its own budgets).
+type Arm struct {
+	Harness         string
+	Workers         int
+	Quick, Thorough tierCfg
 }
 
 func findCheck(id string) *Check {
@@ -160,17 +168,17 @@ var harnesses = map[string]*Harness{
 var checks = []Check{
 	{
 		Property: "C11", Harness: "h6codec", Level: "exploration",
-		Quick:       tierCfg{budget: 150, maxRuns: 1500, shrink: 200},
-		Thorough:    tierCfg{budget: 900, shrink: 1500},
-		RunTimeoutS: 120,
-		Rule:        "one evaluation = 3-10 generated values of the serialisable protocol types (reflection-driven generator that respects the fixed-length invariants of the codec: validator / core / epoch / queue counts, one-of unions, 15-bit import indices; maps filled in tape order; integers biased to the boundaries of the compact encoding) plus fuzz-protocol messages, encoded once by a private fresh encoder, then encoded / hashed / decoded / re-encoded 2-8 times by each of 1-4 concurrent tasks through the shared encoder pool under a tape-chosen interleaving (yield in every loop of the encoder), pool hand-out order (newest, oldest, random, lost objects) and map iteration order (sorted, reversed, random); non-trivial = at least 2 tasks; distinct = multiset of value types",
-		Real:        []string{"internal/types encoder and decoder for every type listed in the harness (blocks, headers, all extrinsics, work packages / items / reports / bundles, every state component, service accounts, state key-values, ancestry)", "the shared encoder pool GetEncoder / PutEncoder (encoder.go instrumented: pool seam), hash.HashEncode", "merklization.StateEncoder", "fuzz.Message MarshalBinary / ReadFrom for all seven message types"},
-		Stub:        []string{"sync.Pool behind encoderPool = tape-driven pool (which pooled encoder is handed out, whether a Put is lost)", "goroutine scheduling = harness scheduler inside a testing/synctest bubble", "Go map iteration order in the instrumented codec files = tape-chosen permutation of the sorted keys", vrfStub + " (compile only)"},
-		Assumptions: []string{"PARTIAL: decides the clause a simulator can own - encoding does not depend on map iteration order, on reuse of pooled encoders or on concurrent use of the pool - and checks the round trip on the values that pass through the simulation; it is not the reflection-driven enumeration of every Encodable type the quantifier asks for (JSON DTO types and test-vector-only types are not generated)", "value equality identifies nil and empty slices / maps (the codec cannot distinguish them)"},
-		LevelText:   "seeded exploration of pool hand-out orders x task interleavings x map iteration orders over generated protocol values; every encoding produced inside the simulation must equal the encoding a private fresh encoder produced before it, stay unchanged while the pool is reused by others, and decode (consuming exactly its length) to a value equal to the original; evidence, not proof",
-		LevelNote:   "partial: the per-value round trip is a pure function and is only checked on the values that pass through the simulation; the deciding dimension is pool reuse / interleaving / map order",
-		Technique:   "deterministic simulation: seeded scheduler over real goroutines (synctest bubble, yield seams in the encoder), simulated sync.Pool and map iteration order, reference-encoding oracle, tape shrinking + fresh-process replay",
-		DesignRef:   "DESIGN.md §13 (H6), §5 C11",
+		Quick:        tierCfg{budget: 150, maxRuns: 1500, shrink: 200},
+		Thorough:     tierCfg{budget: 900, shrink: 1500},
+		RunTimeoutS:  120,
+		Rule:         "one evaluation = 3-10 generated values of the serialisable protocol types (reflection-driven generator that respects the fixed-length invariants of the codec: validator / core / epoch / queue counts, one-of unions, 15-bit import indices; maps filled in tape order; integers biased to the boundaries of the compact encoding) plus fuzz-protocol messages, encoded once by a private fresh encoder, then encoded / hashed / decoded / re-encoded 2-8 times by each of 1-4 concurrent tasks through the shared encoder pool under a tape-chosen interleaving (yield in every loop of the encoder), pool hand-out order (newest, oldest, random, lost objects) and map iteration order (sorted, reversed, random); non-trivial = at least 2 tasks; distinct = multiset of value types",
+		Real:         []string{"internal/types encoder and decoder for every type listed in the harness (blocks, headers, all extrinsics, work packages / items / reports / bundles, every state component, service accounts, state key-values, ancestry)", "the shared encoder pool GetEncoder / PutEncoder (encoder.go instrumented: pool seam), hash.HashEncode", "merklization.StateEncoder", "fuzz.Message MarshalBinary / ReadFrom for all seven message types"},
+		Stub:         []string{"sync.Pool behind encoderPool = tape-driven pool (which pooled encoder is handed out, whether a Put is lost)", "goroutine scheduling = harness scheduler inside a testing/synctest bubble", "Go map iteration order in the instrumented codec files = tape-chosen permutation of the sorted keys", vrfStub + " (compile only)"},
+		Assumptions:  []string{"PARTIAL: decides the clause a simulator can own - encoding does not depend on map iteration order, on reuse of pooled encoders or on concurrent use of the pool - and checks the round trip on the values that pass through the simulation; it is not the reflection-driven enumeration of every Encodable type the quantifier asks for (JSON DTO types and test-vector-only types are not generated)", "value equality identifies nil and empty slices / maps (the codec cannot distinguish them)"},
+		LevelText:    "seeded exploration of pool hand-out orders x task interleavings x map iteration orders over generated protocol values; every encoding produced inside the simulation must equal the encoding a private fresh encoder produced before it, stay unchanged while the pool is reused by others, and decode (consuming exactly its length) to a value equal to the original; evidence, not proof",
+		LevelNote:    "partial: the per-value round trip is a pure function and is only checked on the values that pass through the simulation; the deciding dimension is pool reuse / interleaving / map order",
+		Technique:    "deterministic simulation: seeded scheduler over real goroutines (synctest bubble, yield seams in the encoder), simulated sync.Pool and map iteration order, reference-encoding oracle, tape shrinking + fresh-process replay",
+		DesignRef:    "DESIGN.md §13 (H6), §5 C11",
 		ExpectProbes: []string{"probe:pool_encoder_reused", "probe:pool_encoder_fresh", "fault:pool_put_lost", "fault:schedule_decisions", "op:pooled_encode", "op:hash_encode", "op:decode", "op:encode_without_dictionary", "op:state_encoder", "op:message_marshal"},
 	},
 	{
@@ -356,11 +364,12 @@ var checks = []Check{
 		Property: "C08", Harness: "h3acc", Level: "exploration",
 		Quick:        tierCfg{budget: 150, maxRuns: 700, shrink: 300},
 		Thorough:     tierCfg{budget: 900, shrink: 3000},
+		Arms:         []Arm{{Harness: "h2sched", Workers: 4, Quick: tierCfg{budget: 150, maxRuns: 120, shrink: 100}, Thorough: tierCfg{budget: 1200, shrink: 1000}}},
 		Rule:         "as C10; after every completed host call the exact (big-integer) sum of all balances plus deferred-transfer amounts in context X is compared with the sum before it, and the exact per-call movement is checked (transfer: amount into a deferred transfer; creation: the new account's threshold out of the creator; ejection: the ejected balance to the caller; CASH: nothing changes; other calls: no balance changes); amounts/lengths are aimed at balance-threshold +-1, total balance +-1 and 2^32/2^64 edges",
 		Real:         []string{"PVM.Psi_A end to end: standard-program initialiser, block engine, every accumulate and general host call (real functions reached through wrappers placed in the exported PVM.AccumulateOmegas slice), checkpoint/collapse functions, deep copies", "internal/service_account threshold/footprint helpers", "internal/utilities/merklization raw key constructors"},
 		Stub:         []string{"guest programs are generated by the harness assembler (straight-line load_imm_64/ecalli groups ending in halt/trap/gas-burning loop); " + vrfStub + " (compile only)"},
 		Assumptions:  []string{"abort points are reached through the gas limit (tape-chosen, or every limit 0..need+1 in sweep runs) and through traps / unreadable pointers; per-step observation = serialised snapshots of the X and Y contexts taken by wrappers around the real host-call functions", "the instruction mix is what the builder emits (load_imm_64, ecalli, jump_ind, trap, jump, fallthrough); other opcodes are not exercised here"},
-		LevelText:    "seeded exploration of host-call histories with conservation checked in exact integers after every call, across checkpoint/rollback and aborts; evidence, not proof",
+		LevelText:    "seeded exploration of host-call histories with conservation checked in exact integers after every call, across checkpoint/rollback and aborts; evidence, not proof A quarter of the workers run the H2 round simulation instead (parallel invocations, merge of their results, delivery of deferred transfers in later rounds, ejection of services accumulated in the same round) with a round-level conservation oracle: the balances after the round must not exceed the balances before it.",
 		LevelNote:    "initial balances are generated consistent with thresholds (slack 0..2^62); incoming-transfer credit is accounted for explicitly",
 		Technique:    "deterministic simulation of the accumulation transaction: seeded host-call histories with injected abort points (gas exhaustion at tape-chosen / exhaustively swept step boundaries, traps, unreadable pointers), per-step reference-model oracles in exact integers, tape shrinking + fresh-process replay",
 		DesignRef:    "DESIGN.md §4 H3, §5 C08",
@@ -370,11 +379,12 @@ var checks = []Check{
 		Property: "C09", Harness: "h3acc", Level: "exploration",
 		Quick:        tierCfg{budget: 150, maxRuns: 700, shrink: 300},
 		Thorough:     tierCfg{budget: 900, shrink: 3000},
+		Arms:         []Arm{{Harness: "h2sched", Workers: 4, Quick: tierCfg{budget: 150, maxRuns: 120, shrink: 100}, Thorough: tierCfg{budget: 1200, shrink: 1000}}},
 		Rule:         "as C10; after every completed host call, for every account, the change of the recorded item/octet counts must equal the change of the counts derived from its dictionary entries plus attributable raw key-value entries; a call returning FULL must leave the whole context byte-identical; the threshold reported by info must equal max(0, B_S+B_I*i+B_L*o-f) in big integers whenever that value fits 64 bits (arms with recorded item counts around 2^32/10 and 2^32, octets near 2^64 and gratis offsets around the raw threshold)",
 		Real:         []string{"PVM.Psi_A end to end: standard-program initialiser, block engine, every accumulate and general host call (real functions reached through wrappers placed in the exported PVM.AccumulateOmegas slice), checkpoint/collapse functions, deep copies", "internal/service_account threshold/footprint helpers", "internal/utilities/merklization raw key constructors"},
 		Stub:         []string{"guest programs are generated by the harness assembler (straight-line load_imm_64/ecalli groups ending in halt/trap/gas-burning loop); " + vrfStub + " (compile only)"},
 		Assumptions:  []string{"abort points are reached through the gas limit (tape-chosen, or every limit 0..need+1 in sweep runs) and through traps / unreadable pointers; per-step observation = serialised snapshots of the X and Y contexts taken by wrappers around the real host-call functions", "the instruction mix is what the builder emits (load_imm_64, ecalli, jump_ind, trap, jump, fallthrough); other opcodes are not exercised here"},
-		LevelText:    "seeded exploration of host-call histories with incremental-equals-derived footprint accounting, threshold formula in exact integers and FULL-leaves-state-unchanged checked after every call, incl. entries that exist only as raw key-values; evidence, not proof",
+		LevelText:    "seeded exploration of host-call histories with incremental-equals-derived footprint accounting, threshold formula in exact integers and FULL-leaves-state-unchanged checked after every call, incl. entries that exist only as raw key-values; evidence, not proof A quarter of the workers run the H2 round simulation instead (services that solicit / provide / forget a preimage of their own in one invocation, create services, eject services): after the round every account's recorded items and octets must equal what its lookup and storage entries give (the integration of provided blobs happens after the invocations).",
 		LevelNote:    "raw key-value entries are attributed through the repository's own state-key constructors; thresholds whose exact value does not fit 64 bits are counted, not judged",
 		Technique:    "deterministic simulation of the accumulation transaction: seeded host-call histories with injected abort points (gas exhaustion at tape-chosen / exhaustively swept step boundaries, traps, unreadable pointers), per-step reference-model oracles in exact integers, tape shrinking + fresh-process replay",
 		DesignRef:    "DESIGN.md §4 H3, §5 C09",
